@@ -34,23 +34,31 @@ pub struct C15;
 
 const MAXV: usize = 12;
 
-/// RefSat: truth table over <= 12 variables.
+/// RefSat: truth table over the DISTINCT variables that occur (at most 16, whatever their numbers).
 fn satisfiable(clauses: &[Vec<i32>], assumptions: &[i32]) -> bool {
-    let mut nv = 0usize;
-    for c in clauses.iter().chain(std::iter::once(&assumptions.to_vec())) {
-        for l in c {
-            nv = nv.max(l.unsigned_abs() as usize);
+    let mut vars: Vec<u32> = clauses.iter().flatten().chain(assumptions.iter()).map(|l| l.unsigned_abs()).collect();
+    vars.sort();
+    vars.dedup();
+    let nv = vars.len();
+    assert!(nv <= 16, "RefSat: more than 16 distinct variables");
+    let dense = vars.last().map_or(true, |m| *m as usize == nv);
+    let ix = |l: i32| -> usize {
+        if dense {
+            l.unsigned_abs() as usize - 1
+        } else {
+            vars.binary_search(&l.unsigned_abs()).unwrap()
         }
-    }
-    assert!(nv <= 16);
+    };
+    let cl: Vec<Vec<(usize, bool)>> = clauses.iter().map(|c| c.iter().map(|l| (ix(*l), *l > 0)).collect()).collect();
+    let asm: Vec<(usize, bool)> = assumptions.iter().map(|l| (ix(*l), *l > 0)).collect();
     'rows: for row in 0u32..(1u32 << nv) {
-        let val = |l: i32| (row >> (l.unsigned_abs() - 1) & 1 == 1) == (l > 0);
-        for a in assumptions {
+        let val = |(i, pos): (usize, bool)| (row >> i & 1 == 1) == pos;
+        for a in &asm {
             if !val(*a) {
                 continue 'rows;
             }
         }
-        for c in clauses {
+        for c in &cl {
             if !c.iter().any(|l| val(*l)) {
                 continue 'rows;
             }
@@ -113,6 +121,65 @@ pub fn gen_case(run_seed: u64) -> C15Case {
         }
     }
     ops.push(SatOp::Solve(vec![]));
+    // 1 history in 400 leaves the small world: variable numbers up to 100 000 (still <= 12 distinct
+    // ones, so the truth table stays the reference), clauses of up to 300 literals, or hundreds to
+    // tens of thousands of clauses
+    if rng.chance(1, 400) {
+        match rng.below(3) {
+            0 => {
+                const IDS: [i32; 24] = [1, 2, 9, 10, 99, 100, 127, 128, 129, 255, 256, 257, 999, 1000, 9999, 10_000, 12_345, 32_767, 32_768, 54_321, 65_535, 65_536, 70_001, 100_000];
+                let mut pick: Vec<i32> = IDS.to_vec();
+                rng.shuffle(&mut pick);
+                pick.truncate(MAXV);
+                let map = |l: i32| if l > 0 { pick[l as usize - 1] } else { -pick[(-l) as usize - 1] };
+                for op in ops.iter_mut() {
+                    match op {
+                        SatOp::Add(c) | SatOp::Solve(c) => {
+                            for l in c.iter_mut() {
+                                *l = map(*l);
+                            }
+                        }
+                        SatOp::Reserve(n) => *n = pick[*n - 1] as usize,
+                    }
+                }
+            }
+            1 => {
+                // long clauses: one polarity per variable within a clause (no tautology), literals repeated
+                for _ in 0..rng.range(1, 4) {
+                    let len = *rng.pick(&[17usize, 64, 255, 256, 257, 300]);
+                    let pol: Vec<bool> = (0..nv).map(|_| rng.bool()).collect();
+                    let c: Vec<i32> = (0..len)
+                        .map(|_| {
+                            let v = rng.range(1, nv);
+                            if pol[v - 1] {
+                                v as i32
+                            } else {
+                                -(v as i32)
+                            }
+                        })
+                        .collect();
+                    let at = rng.below(ops.len());
+                    ops.insert(at, SatOp::Add(c));
+                }
+            }
+            _ => {
+                // many clauses over few variables, few solve calls
+                let nvm = nv.min(8);
+                let many = *rng.pick(&[255usize, 256, 257, 300, 1000, 5000, 66_000]);
+                let mut big = vec![];
+                for k in 0..many {
+                    let len = rng.range(2, 3);
+                    big.push(SatOp::Add((0..len).map(|_| lit(&mut rng, nvm)).collect()));
+                    if k == many / 2 {
+                        big.push(SatOp::Solve(vec![lit(&mut rng, nvm)]));
+                    }
+                }
+                big.push(SatOp::Solve(vec![]));
+                big.push(SatOp::Solve(vec![lit(&mut rng, nvm)]));
+                ops = big;
+            }
+        }
+    }
     let mut orng = Rng::sub(run_seed, "oracle");
     let mut oracle = OracleCfg::draw(&mut orng);
     if oracle.policy == Policy::Cadical {
@@ -281,12 +348,10 @@ impl Property for C15 {
         if n > 2 {
             out.push(C15Case { ops: case.ops[..n / 2].to_vec(), ..case.clone() });
         }
-        for i in 0..n {
-            let mut ops = case.ops.clone();
-            ops.remove(i);
+        for ops in crate::framework::list_removals(&case.ops) {
             out.push(C15Case { ops, ..case.clone() });
         }
-        for i in 0..n {
+        for i in 0..n.min(80) {
             if let SatOp::Add(c) | SatOp::Solve(c) = &case.ops[i] {
                 for j in 0..c.len() {
                     let mut c2 = c.clone();
@@ -309,7 +374,7 @@ impl Property for C15 {
         out.into_iter().map(|c| serde_json::to_value(c).unwrap()).collect()
     }
     fn rule(&self) -> String {
-        "case = history of 6..80 operations {add_clause (empty, unit, tautological, random; sometimes on fresh variables), reserve(k), solve, solve_under_assumptions (0..3 assumptions, sometimes on never-seen variables, followed by an unconstrained solve)} over <= 12 variables applied in lock-step to the real CadicalSolver and to the real BufferedSatSolver over SimChild (its own oracle seed and seeded legal reply layouts), checked against a truth table: verdicts, model vs every clause and assumption, value_of answerable for every declared variable, n_vars >= declared, no persistence of assumptions. Non-trivial = >= 2 solve calls and >= 2 clauses; distinct = distinct operation list".into()
+        "case = history of 6..80 operations (1 in 400: variable numbers up to 100 000 with <= 12 distinct ones, clauses of 17..300 literals, or 255..66 000 clauses) {add_clause (empty, unit, tautological, random; sometimes on fresh variables), reserve(k), solve, solve_under_assumptions (0..3 assumptions, sometimes on never-seen variables, followed by an unconstrained solve)} over <= 12 variables applied in lock-step to the real CadicalSolver and to the real BufferedSatSolver over SimChild (its own oracle seed and seeded legal reply layouts), checked against a truth table: verdicts, model vs every clause and assumption, value_of answerable for every declared variable, n_vars >= declared, no persistence of assumptions. Non-trivial = >= 2 solve calls and >= 2 clauses; distinct = distinct operation list".into()
     }
     fn assumptions(&self) -> Vec<String> {
         vec![
